@@ -8,12 +8,16 @@ import coqemit as E
 ID = "C17"
 LEVEL_TEXT = ("Coq theorems over an executable model of the four sampling utilities and sliceaxisix. Stochastic universal sampling: "
               "exactly k draws, every element drawn floor or ceiling of its expected count and never a zero-weight element, for every "
-              "non-negative weight vector, every layout order (any tie-breaking of the sort), every k >= 1, every offset in [0, tot/k) and "
-              "every shuffle (exact-rational pointers); for an arbitrary non-decreasing pointer list (this covers the binary64 pointers the "
-              "code computes) the count of an element is the number of pointers in its cumulative-weight cell, a zero-weight element is "
-              "never drawn unless a pointer reaches the total, and the binary64 walk equals the ideal walk whenever its pointers fall in the "
-              "same cells; two rounding counterexamples of the binary64 pointers (floor/ceil, zero weight) and the two repaired defects "
-              "are proved as _refuted theorems and reproduced on the implementation. Tiled choice uses every option q or q+1 times; an axis "
+              "non-negative weight vector, every descending layout (any tie-breaking of the sort), every k >= 0, every offset in [0, tot/k) and "
+              "every shuffle (exact-rational pointers); for the binary64 pointers and cumulative sums exactly as the code computes them, "
+              "whatever the rounding: exactly k draws for every k >= 0 and never an element of zero weight (full strength: the walk is "
+              "confined to the elements of positive weight); for an arbitrary non-decreasing pointer list the count of an element is the "
+              "number of pointers in its cumulative-weight cell, and the binary64 walk equals the ideal walk whenever its pointers fall in the "
+              "same cells; floor/ceiling itself fails for the binary64 pointers (one rounding counterexample is proved as a _refuted theorem and "
+              "reproduced on the implementation) - what is proved instead is that every element is drawn at most one draw away from "
+              "floor/ceiling whenever the binary64 pointers and cumulative sums stay within tot/(8k) of the exact ones, a condition "
+              "evaluated inside Coq for every generated case; the four repaired defects (pointer count, strict comparison, zero-weight tail, output size zero) are "
+              "proved as _refuted theorems about definitions of the former code. Tiled choice uses every option q or q+1 times; an axis "
               "shuffle permutes the values inside every slice produced by sliceaxisix, the slices being pairwise disjoint and covering the "
               "array; outcross shuffling preserves the multiset, never raises the duplicate count, needs at most score+1 passes for every "
               "oracle and stops only at a 2-exchange local optimum. The model (bit-exact binary64 for pointer distance, pointers and "
@@ -29,8 +33,8 @@ IMPORTS = "From Coq Require Import PrimFloat.\nFrom PV Require Import Lib.Common
 SHARD = 40
 RULE = ("case = (function in {sus, tiled, axis, sliceaxisix, outcross}, arguments, scripted draws | PCG64 seed); one PRNG; "
         "sus: 1..12 weights from {small integers with ties, zeros, dyadic grid, m*2^e with e in -20..20, arbitrary doubles for n<8}, "
-        "sizes 1..12/49/98 as int or tuple shapes (incl. () and 0), offsets {0, pred(tot/k), mid, random, placed on a cumulative-weight "
-        "boundary}; tiled: 0..6 options, sizes 0..20 and 2-D shapes, with/without replacement, with/without p; axis: 1-3 dimensions of "
+        "sizes 1..12/49/98 as int or tuple shapes (incl. () and shapes with a zero extent), offsets {0, pred(tot/k) (preferred when a weight is zero), "
+        "mid, random, placed on a cumulative-weight boundary}; tiled: 0..6 options, sizes 0..20 and 2-D shapes, with/without replacement, with/without p; axis: 1-3 dimensions of "
         "extent 0..4, every axis subset incl. all, negative and out-of-range axes, C/F/strided views; outcross: 0..4 x 0..4 tables from a small "
         "pool of individuals, C/transposed/strided views, score+1 scripted exchange-order permutations; non-trivial = weights/values not all "
         "equal and output size >= 2; distinct by SHA-256 of the case")
@@ -86,6 +90,7 @@ def _sus_case(rng, tier, seeded=False):
     tot = numpy.array(w, dtype=float).sum()
     d = float(tot / numpy.int64(k)) if k > 0 else 0.0
     okind = rng.choice(["zero", "pred", "mid", "rand", "rand", "boundary", "boundary", "boundary"])
+    if 0.0 in w and rng.random() < 0.35: okind = "pred"      # the last pointer may round up to the total: zero-weight tail
     if k == 0 or not (d > 0.0) or math.isinf(d): off = 0.0; okind = "zero"
     elif okind == "zero": off = 0.0
     elif okind == "pred": off = math.nextafter(d, 0.0)
@@ -209,6 +214,11 @@ def _fixed_cases():
     sus([1, 1], 6, 0.0); sus([1, 1], 20, 0.0)
     sus([2 ** 30, 2 ** -20], 4, 0.0); sus([2 ** 30, 2 ** -20], 1, 2.0 ** 30)
     sus([0.1, 0.2, 0.7], 10, 0.0); sus([0.1, 0.2, 0.7], 10, 0.05)
+    # last pointer rounds up to the total weight: must stay on the last element of positive weight (repaired in eabf766a)
+    sus([2.5, 1, 0], 4, 0.875 * (1 - 2 ** -53)); sus([0, 2.5, 0, 1, 0], 4, 0.875 * (1 - 2 ** -53), [2, 0, 3, 1])
+    sus([0, 0, 3], 3, math.nextafter(1.0, 0)); sus([0.1, 0.0, 0.2], 3, math.nextafter(0.1, 0)); sus([0, 7, 0], [2, 2], math.nextafter(1.75, 0))
+    # an output size of zero: empty array of the requested shape, no draws requested (repaired in f3dafbe4)
+    sus([1, 2], 0, 0.0); sus([1, 2], [0], 0.0); sus([1, 0, 2], [2, 0], 0.0); sus([3], [0, 3], 0.0)
     return cs
 
 def gen_cases(rng, tier):
@@ -381,7 +391,7 @@ def _sus_exact(case):
     """True when no binary64 operation of the pointer computation rounds (then the ideal model must agree too)"""
     p = [_fh(h) for h in case["p"]]
     k = _prod(case["size"])
-    if k == 0: return False
+    if k == 0: return True
     tot = F(0)
     for x in p: tot += F(x)
     ft = float(numpy.array(p, dtype=float).sum())
@@ -410,10 +420,16 @@ def emit_case(case, out):
         if "raised" in out:
             return "(onatl_eqb (sus_f %s) None)" % args
         if out["shape"] != size: return "false"
-        high = [e for e in out["log"] if e[0] == "uniform"]
-        if len(high) != 1 or [e[0] for e in out["log"]] != ["uniform", "shuffle"] or out["left"] != [0, 0]: return "false"
-        if _fh(high[0][1]) != 0.0 or out["log"][1][1] != k: return "false"
-        return "(agree_sus %s %s %s %s %s)" % (args, _zl(case["a"]), E.b(_sus_exact(case)), E.fhex(_fh(high[0][2])),
+        if k == 0:
+            # nothing to draw: no request to the generator at all
+            if out["log"] != [] or out["left"] != [1, 1]: return "false"
+            high = None
+        else:
+            hl = [e for e in out["log"] if e[0] == "uniform"]
+            if len(hl) != 1 or [e[0] for e in out["log"]] != ["uniform", "shuffle"] or out["left"] != [0, 0]: return "false"
+            if _fh(hl[0][1]) != 0.0 or out["log"][1][1] != k: return "false"
+            high = _fh(hl[0][2])
+        return "(agree_sus %s %s %s %s %s)" % (args, _zl(case["a"]), E.b(_sus_exact(case)), E.opt(high, E.fhex),
                                                 E.opt(out["out"], _zl))
     if fn == "tiled":
         ns = _prod(case["size"])
@@ -483,7 +499,8 @@ def _pred_sus(case, out):
         e = p[i] * k / tot
         if p[i] == 0 and c != 0: bad.append("element %d has zero weight but was selected %d times" % (i, c))
         elif not (_floor(e) <= c <= _ceil(e)):
-            bad.append("element %d selected %d times, expected count %s (floor %d, ceil %d)" % (i, c, float(e), _floor(e), _ceil(e)))
+            far = "" if _floor(e) - 1 <= c <= _ceil(e) + 1 else " - more than one draw away"
+            bad.append("element %d selected %d times, expected count %s (floor %d, ceil %d)%s" % (i, c, float(e), _floor(e), _ceil(e), far))
     if not out["inputs_unchanged"]: bad.append("input arrays modified")
     return bad
 
@@ -595,9 +612,10 @@ def _float_walk(case, order):
     cs = p[numpy.array(order, dtype=int)].cumsum()
     d = p.sum() / numpy.int64(k)
     ptrs = _fh(case["off"]) + d * numpy.arange(k)
+    last = int(numpy.count_nonzero(p > 0.0)) - 1
     ix = 0; sel = []
     for ptr in ptrs:
-        while ix < len(cs) - 1 and cs[ix] <= ptr: ix += 1
+        while ix < last and cs[ix] <= ptr: ix += 1
         sel.append(order[ix])
     return sel
 
@@ -608,10 +626,11 @@ def _exact_walk(case, order):
     cs = []; acc = F(0)
     for i in order: acc += p[i]; cs.append(acc)
     d = sum(p) / k; off = F(_fh(case["off"]))
+    last = sum(1 for x in p if x > 0) - 1
     ix = 0; sel = []
     for t in range(k):
         ptr = off + d * t
-        while ix < len(cs) - 1 and cs[ix] <= ptr: ix += 1
+        while ix < last and cs[ix] <= ptr: ix += 1
         sel.append(order[ix])
     return sel
 
@@ -626,9 +645,12 @@ def _rounding_case(case, out):
     return sorted(fw) != sorted(_exact_walk(case, out["order"])) or not (F(_fh(case["off"])) < sum(p) / k)
 
 def classify(case, out, clauses):
+    """only the floor/ceiling rounding of the binary64 pointers is a known finding, and only when every count is within one draw of
+    floor/ceiling (C17_sus_float_within_one); a zero-weight element in the output or an exception for an output size of zero
+    (both repaired) are violations"""
     if case["fn"] == "sus" and clauses:
-        if _prod(case["size"]) == 0 and "raised" in out: return "C17-sus-size-zero"
-        if all(("selected" in c) for c in clauses) and _rounding_case(case, out): return "C17-sus-rounding-zero-weight" if any("zero weight" in c for c in clauses) else "C17-sus-rounding-floor-ceil"
+        if all(("selected" in c and "zero weight" not in c and "more than one draw away" not in c) for c in clauses) and _rounding_case(case, out):
+            return "C17-sus-rounding-floor-ceil"
     return None
 
 # ------------------------------------------------------------------ evidence helpers
